@@ -128,7 +128,7 @@ Print Assumptions a_skipped_feature_contains_only_skipped_elements.
 Example effective_tags_inherit :
   let o := mkOutline 5 [1] [mkStep KPass 9] [mkEx 6 [2] 1; mkEx 7 [3] 1] in
   let f := mkFeature 1 [10] None [FRule (mkRule 2 [20] None [SOutline o])] in
-  let cfg t := config_of (mkCfgData false false true (THas t) [] [] [] 99 false None) in
+  let cfg t := config_of (mkCfgData false false true (THas t) [] [] [] 99 false None []) in
   sel_ids (cfg 2) [f] = [row_id 5 0 0] /\ sel_ids (cfg 3) [f] = [row_id 5 1 0] /\
   sel_ids (cfg 20) [f] = [row_id 5 0 0; row_id 5 1 0] /\ sel_ids (cfg 10) [f] = [row_id 5 0 0; row_id 5 1 0] /\
   sel_ids (cfg 4) [f] = [].
@@ -138,7 +138,7 @@ Proof. vm_compute. repeat split. Qed.
    before_feature hook (which excludes) is not defined *)
 Example an_excluded_scenario_does_not_run :
   let f := mkFeature 1 [] None [FItem (SScen (mkScen 2 [9] [mkStep KPass 5])); FItem (SScen (mkScen 3 [] [mkStep KPass 6]))] in
-  let cfg hooks := config_of (mkCfgData false false true TTrue hooks [] [] 99 false (Some 9)) in
+  let cfg hooks := config_of (mkCfgData false false true TTrue hooks [] [] 99 false (Some 9) []) in
   sel_ids (cfg [HBeforeFeature]) [f] = [3] /\ sel_ids (cfg []) [f] = [2; 3] /\
   (let '(_, _, _, evs) := run_model (cfg [HBeforeFeature]) [f] in
    existsb (fun e => match e with EStep _ 5 _ _ => true | _ => false end) evs = false /\
